@@ -68,6 +68,10 @@ class CaseUnit(Unit):
             if 'C07' not in c.props:
                 c.props = list(c.props) + ['C07']
         return '\n'.join(pre_l), plan, consts, '\n'.join(lem_l)
+    def candidate_replay(self, ctx, prog, o):
+        from .. import lreplay
+        f = o.fn.split('::')[-1]
+        return lreplay.parse(prog, o.fn) if f in ('from_str', 'try_from', 'vx_complete') else lreplay.printers(prog, o.fn)
     def kani_module(self, ctx, prog):
         if prog.name.endswith('Dw'):
             t, hs = spec_misc.kani_message(prog)
